@@ -22,6 +22,9 @@ type NTime struct {
 	Unix  int64
 	Zone  string
 	Civil string
+	// Gap marks an expected date whose local midnight does not exist (a zone that springs forward at 00:00): "the start of
+	// that day" is then only defined up to the hour around the jump, see ReconcileGaps.
+	Gap bool `json:",omitempty"`
 }
 
 func nt(t time.Time) NTime {
@@ -339,7 +342,49 @@ func FeedLocation(f *Feed) *time.Location {
 }
 
 func expDate(d Date, loc *time.Location) NTime {
-	return nt(time.Date(d.Y, time.Month(d.M), d.D, 0, 0, 0, 0, loc))
+	t := time.Date(d.Y, time.Month(d.M), d.D, 0, 0, 0, 0, loc)
+	n := nt(t)
+	if t.Hour() != 0 || t.Day() != d.D {
+		n.Gap = true
+	}
+	return n
+}
+
+// ReconcileGaps returns got with every date that corresponds to a Gap date of want replaced by the expected value, provided it
+// is in the same zone and within one hour of it. On such days Go normalises the missing midnight to the instant an hour before
+// or after the jump; the statement ("the start of that day") does not choose between them, so both are accepted - but the row
+// must still be there.
+func ReconcileGaps(got, want NStatic) NStatic {
+	out := got
+	out.Services = append([]NService(nil), got.Services...)
+	fix := func(g *NTime, w NTime) {
+		d := g.Unix - w.Unix
+		if w.Gap && g.Zone == w.Zone && d >= -3600 && d <= 3600 {
+			*g = w
+		}
+	}
+	for i := range out.Services {
+		if i >= len(want.Services) || out.Services[i].Id != want.Services[i].Id {
+			continue
+		}
+		sv, w := out.Services[i], want.Services[i]
+		fix(&sv.Start, w.Start)
+		fix(&sv.End, w.End)
+		sv.Added = append([]NTime(nil), sv.Added...)
+		sv.Removed = append([]NTime(nil), sv.Removed...)
+		for j := range sv.Added {
+			if j < len(w.Added) {
+				fix(&sv.Added[j], w.Added[j])
+			}
+		}
+		for j := range sv.Removed {
+			if j < len(w.Removed) {
+				fix(&sv.Removed[j], w.Removed[j])
+			}
+		}
+		out.Services[i] = sv
+	}
+	return out
 }
 
 // Value is the number the text denotes (surrounding spaces ignored). The stored V is informational:
